@@ -124,6 +124,6 @@ def check(tier, seed):
                       trusted=['clang-14 front end and -O2 code generation', 'LLVM IR semantics as modelled by irflow', 'x86 lane table', 'reference stages in gen/linalg_common.py'],
                       floors=load_floors('C11', tier),
                       assumptions=['exact (real) arithmetic: the backward-error bound is NOT decided (DESIGN.md §6)', 'pivoted strategies: the pivot search is data-dependent and not analysed; bijection of the permutation is covered by the R-PERMSWAP rule only if astrules is built'],
-                      extra_cov={'not_decided': 'floating-point backward error; pivot search; bijection of computed permutations'})
+                      extra_cov={'not_decided': 'floating-point backward error; pivoted forms end to end for n > 3'})
     finally:
         R.cleanup()
